@@ -108,6 +108,18 @@ CLAIMED.update({
               "partial: fuzzy getValuesAtPoints, invertIntervalList, percent thresholds, regex find and == are evaluated, not proved."),
 })
 
+CLAIMED.update({
+    "C04": _c("Proof: Props/C04.v shows, for the model of _fillInBlanks/_removeUltrashortIntervals/_prepTgForSaving and every "
+              "well-formed interval tier of any size: blank filling succeeds, yields an ascending gap-free overlap-free partition of "
+              "exactly the requested span, keeps every entry and adds only empty-labelled intervals; sliver absorption on a partition "
+              "yields a partition of the same span with no interval below the threshold and with exactly the labels of the intervals "
+              "at least that long, in order; an interval whose neighbours are not slivers is written verbatim; threshold None absorbs "
+              "nothing and leaves positive lengths; an entry outside a requested span raises; blanks off only sorts.  The prepared "
+              "data the implementation writes is compared with the model and with a clause-by-clause oracle inside Coq.",
+              "Coq proof (accumulator invariant of the absorption loop, partition lemmas, sortedness => sort is identity) + in-Coq differential correspondence and oracle",
+              "5/C04", "The all-intervals-below-threshold case violates the partition clause on the real code (known finding F19, witness theorem C04_all_short_refuted)."),
+})
+
 PENDING = {}
 
 
